@@ -987,7 +987,14 @@ func (fc *FnCtx) index(st *State, e *ast.IndexExpr) Term {
 		// missing key yields the zero value
 		zero := fc.zeroValue(u.Elem())
 		if zero.S == "" {
-			return v // struct values: not modelled precisely when absent
+			if isStructVal(u.Elem()) && st != nil && ok.S != "true" {
+				// a missing key yields the zero struct
+				z := fc.zeroStruct(st, u.Elem())
+				r := tIte(ok, v, z)
+				r.T = u.Elem()
+				return r
+			}
+			return v
 		}
 		return tIte(ok, v, zero)
 	case *types.Pointer:
